@@ -175,7 +175,7 @@ func (c *Ctx) Retain(api string, b []byte, cas func() interface{}) {
 		cc = cas()
 	}
 	retainRing = append(retainRing, retained{api, b, append([]byte(nil), b...), cc})
-	if len(retainRing) > 4 {
+	if len(retainRing) > 64 {
 		retainRing = retainRing[1:]
 	}
 }
